@@ -328,6 +328,9 @@ for (cap, pre, actual) in ((0, 0, 0), (0, 0, 2), (1, 30, 1), (1, 30, 2), (0, 100
     UC("c11-vec-drop-cap%d-pre%d-act%d" % (cap, pre, actual), "boxcar", "vec_drop_exactly_once::<%d,%d,%d>()" % (cap, pre, actual), {"C11": "quick"}, "bounded", ["boxcar::Vec::drop", "boxcar::Bucket::dealloc"] + VEC_FNS[:3],
        "[reserve PRE unfilled]; extend(reports 2, yields %d); push; drop(vec): each yielded/pushed item dropped exactly once, nothing dropped early" % actual,
        unwind=130, bound="history of <= 3 operations starting at index %d, capacity %d; single thread, no panics" % (pre, cap), cost=8, timeout=1500)
+UC("c11-vec-drop-plain-payload-no-leak", "boxcar", "vec_drop_plain_payload_no_leak()", {"C11": "quick"}, "bounded", ["boxcar::Vec::drop", "boxcar::Bucket::dealloc", "boxcar::Vec::push"],
+   "payload type without drop glue (u32): after push; push; drop(vec) no heap block is leaked - the matcher columns the fill callback allocated are destroyed with the vector (CBMC memory-leak check)",
+   unwind=70, bound="two pushes, one column holding a heap allocation, then drop; single thread", cost=5, timeout=1500, cbmc_args="--memory-leak-check", core=True)
 UC("c08-boxcar-canary", "boxcar", "boxcar_canary()", {"C08": "quick", "C11": "quick"}, "bounded", [], "canary", unwind=40, expect="fail", no_cover=True)
 
 # ---------------------------------------------------------------------------
@@ -348,6 +351,9 @@ for fn, tag, lens, what in SORT:
         UC("c18-%s-%d" % (tag, L), "par_sort", "k18_%s::<%d>()" % (fn, L), {"C18": "quick"}, "bounded", ["par_sort::" + fn],
            "%s: %s" % (fn, what), unwind=L + 3, bound="every array of %d bytes, strict weak order = low 2 bits (ties with distinguishable payloads)" % L, cost=6, timeout=1500,
            stubs=[("rayon::join", "crate::par_sort::verif_par_sort::seq_join")] if fn == "par_quicksort" else [])
+UC("c18-partial-insertion-sort-50", "par_sort", "k18_partial_insertion_sort_50::<3>()", {"C18": "quick"}, "bounded", ["par_sort::partial_insertion_sort", "par_sort::shift_head", "par_sort::shift_tail"],
+   "partial_insertion_sort on 50 elements (it only shifts in slices >= 50): true => sorted; always a permutation", unwind=53,
+   bound="50 bytes: the first 3 symbolic (< 60), the rest 3, 4, .., 49 ascending; order = byte value", cost=8, timeout=1500)
 UC("c18-canary", "par_sort", "k18_canary()", {"C18": "quick"}, "bounded", [], "canary", unwind=8, expect="fail", no_cover=True)
 
 # ---------------------------------------------------------------------------
@@ -462,8 +468,8 @@ for L in (1, 2, 3, 4, 5):
        unwind=8, bound="all ASCII strings of exactly %d bytes (parse inspects at most the first two and last two bytes)" % L, cost=3, stubs=PARSE_STUB)
 NI_STUBS = CHAR_STUBS + [("crate::chars::is_upper_case", "crate::chars::verif_charmodel::model_is_upper")]
 LEADNAME = {0xC3: "ä Ä ß é É à", 0xCF: "ς σ", 0xC5: "ſ", 0xC2: "µ", 0xCE: "Σ"}
-TAILNAME = {0: "backslash space", 1: "backslash x", 2: "x backslash", 3: "x y", 4: "space backslash", 5: "X y"}
-for (lead, tail, case, esc) in ((0xC3, 0, 1, True), (0xC3, 0, 2, True), (0xC3, 1, 2, True), (0xC3, 2, 2, True), (0xC3, 4, 1, True), (0xC3, 3, 2, False), (0xC3, 5, 2, True),
+TAILNAME = {0: "backslash space", 1: "backslash x", 2: "x backslash", 3: "x y", 4: "space backslash", 5: "X y", 6: "backslash X"}
+for (lead, tail, case, esc) in ((0xC3, 6, 1, True), (0xC3, 6, 2, True), (0xC3, 0, 1, True), (0xC3, 0, 2, True), (0xC3, 1, 2, True), (0xC3, 2, 2, True), (0xC3, 4, 1, True), (0xC3, 3, 2, False), (0xC3, 5, 2, True),
                                 (0xCF, 3, 2, True), (0xCF, 0, 1, True), (0xC5, 3, 2, True), (0xC2, 1, 1, True), (0xCE, 5, 2, False)):
     UC("c14-new-inner-unicode-%x-t%d-c%d-%s" % (lead, tail, case, "esc" if esc else "noesc"), "pattern",
        "new_inner_unicode::<%d,%d,%d,true,%s>()" % (lead, tail, case, "true" if esc else "false"), {"C14": "quick"}, "bounded", ["pattern::Atom::new_inner (code-point branch)"],
